@@ -35,7 +35,7 @@ class HistoricallyTimedOperation(AbstractDenseTimeOnlineOperation):
 
         i = 1
         while len(sample) >= i:
-            if i == 1 and sample[0][0] == 0 and begin > 0:
+            if i == 1 and sample[0][0] == 0 and begin > 0 and not out:
                 out.append((0, sample[0][0] + begin, float('inf')))
 
             if i == len(sample):
